@@ -472,7 +472,7 @@ class Emitter:
             nm = 'fnty_%d' % len(s.fnptr_types)
             s.fnptr_types[key] = nm
             ps = ', '.join(s.ctype(p) for p in ft.params) or 'void'
-            if ft.va: ps = (ps + ', ...') if ft.params else '...'
+            if ft.va: ps = (ps + ', ...') if ft.params else ''   # `i32 (...)*` (vtable slot type): C has no `(...)`; use an unprototyped pointer type
             s.struct_defs.append('typedef %s (*%s)(%s);' % (s.ctype(ft.ret), nm, ps))
         return s.fnptr_types[key]
     def lit_struct(s, t):
@@ -1313,6 +1313,7 @@ static inline __int128 SREM128(__int128 a, __int128 b) { return a % b; }
 uint8_t* ll_memcpy(uint8_t*, uint8_t*, uint64_t); uint8_t* ll_memmove(uint8_t*, uint8_t*, uint64_t); uint8_t* ll_memset(uint8_t*, uint32_t, uint64_t);
 static inline void* verif_alloc_check(void* p) { __CPROVER_assume(p != 0); return p; }
 extern int verif_exc_pending; extern void* verif_exc_obj; extern void* verif_exc_type;
+struct verif_ti { void* vt; const char* name; struct verif_ti* base; };
 int verif_exc_matches(void* tinfo); long verif_typeid_for(void* tinfo);
 unsigned __int128 verif_bswap(unsigned __int128 x, int n); unsigned __int128 verif_ctpop(unsigned __int128 x, int n);
 unsigned __int128 verif_ctlz(unsigned __int128 x, int n); unsigned __int128 verif_cttz(unsigned __int128 x, int n);
@@ -1338,7 +1339,9 @@ def translate_module(text, opts=None):
         cn = em.cname(name, 'g')
         ct = em.ctype(ty)
         if init is None:
-            gdecl.append('extern %s %s;' % (ct, cn))
+            if name.startswith('@_ZTI'): gdecl.append('extern struct verif_ti %s;' % cn)          # std::type_info objects live in rt.c
+            elif name.startswith('@_ZTVN10__cxxabiv1'): gdecl.append('extern void* %s[8];' % cn)
+            else: gdecl.append('extern %s %s;' % (ct, cn))
         else:
             gdecl.append('static %s %s;' % (ct, cn)) if False else gdecl.append('%s %s;' % (ct, cn))
     for name, f in m.funcs.items():
